@@ -63,6 +63,15 @@ def run(tier, seed):
                 return 0
             c.cov["binding_selfcheck_trace"] = vlib.binding_selfcheck_trace("Trace_Rfc1982", tp, mut)
 
+    # serial numbers where they are used: one connection of the real client and server whose serials start sixteen below 2^32 and
+    # walk across the wrap (C06's session model explains every step: a client that compared serials as plain integers would refuse
+    # the update that follows 2^32 - 1)
+    import checks.c06 as c06
+    for k, (ci, sm, cs_, w) in enumerate([(2, 2, "stale", 1)] if tier == "quick" else [(2, 2, "stale", 1), (1, 2, "none", 1), (2, 1, "stale", 1)]):
+        tc = c06.trace_cfg(wd, f"session-wrap{k}.cfg", ci, sm, w, cs_)
+        vlib.trace_rounds(c, "Trace_RtrSession", "rtrsession", [seed * 200 + 2 * k + 1], 60 if tier == "quick" else 300, None, cfg=tc,
+                          extra_args=["--cli-init", ci, "--srv-max", sm, "--window", w, "--cli-start", cs_])
+
     # unbounded lemma at width 32 (Apalache), and in the thorough tier all 2^32 differences natively
     ok, out, wall = vlib.apalache("APA_Rfc1982", "Inv", length=0, timeout=300)
     c.cov["apalache"] = {"module": "APA_Rfc1982", "inv": "Inv", "ok": ok, "wall_s": round(wall, 1)}
